@@ -119,7 +119,11 @@ func main() {
 			c := cfgs[i%len(cfgs)]
 			c.LB = []gnet.LoadBalancing{gnet.LeastConnections, gnet.SourceAddrHash}[i%2] // Engine.Register is documented as not safe with RoundRobin
 			kind := []string{"live", "live", "expired", "soon"}[i%4]
-			n := runC19Case(c, res.Seed*1000507+uint64(i), kind, keys)
+			addFaults := i%2 == 0 // every other life: registrations of enrolled descriptors fail now and then (epoll_ctl ADD)
+			if addFaults && c.Net == "unix" {
+				c.Net = "tcp" // Register by address needs a TCP listener
+			}
+			n := runC19Case(c, res.Seed*1000507+uint64(i), kind, addFaults, keys)
 			res.Eval(n)
 			res.Checkpoint()
 			if i < 2 {
